@@ -56,6 +56,27 @@ Section FLb.
       rewrite E. apply rreach_refl.
   Qed.
 
+  (* the same in front of further arguments (the entry point of a program that calls main: the parameters, then
+     the exit continuation) *)
+  Lemma bind_args_run_tail : forall bs env f done tail,
+    (forall bb, In bb bs -> exists b', clookup env (cbvar bb) = Some b' /\ ckind b' = cbchi bb) ->
+    rreach cp (cargs_res done (map arg_of_binding bs ++ tail) env f)
+           (cargs_res (rev_append (lookups env bs) done) tail env f).
+  Proof.
+    induction bs as [|bb r IH]; intros env f done tail Hk.
+    - simpl. apply rreach_refl.
+    - destruct (Hk bb (or_introl eq_refl)) as [b' [Hl Hkind]].
+      change (map arg_of_binding (bb :: r) ++ tail) with (arg_of_binding bb :: (map arg_of_binding r ++ tail)).
+      unfold cargs_res at 1. apply rreach_step.
+      assert (Hstep : cstep cp (Arg (arg_of_binding bb) env (MArgs done (map arg_of_binding r ++ tail) env f)) =
+                      SNext (App (MArgs done (map arg_of_binding r ++ tail) env f) b')).
+      { unfold arg_of_binding. destruct bb as [v c ty]. simpl in *. destruct c; simpl; rewrite Hl;
+          destruct b' as [pv|kv]; simpl in Hkind; try discriminate; reflexivity. }
+      rewrite Hstep. apply rreach_step. rewrite cstep_app_margs.
+      eapply rreach_trans; [apply IH; intros bb0 Hb0; apply Hk; right; exact Hb0|].
+      simpl. rewrite Hl. apply rreach_refl.
+  Qed.
+
   Lemma cbind_lookups : forall bs env,
     (forall bb, In bb bs -> exists b', clookup env (cbvar bb) = Some b') ->
     exists env_l, cbind (cvars bs) (lookups env bs) [] = Some env_l /\
